@@ -151,7 +151,6 @@ func directedEDF() []directed {
 		// recursion depth proportional to the input: any in any in any ...
 		{"any-chain-100k", func() []byte { return append(bytes.Repeat([]byte{132}, 100000), 145, 1) }},
 		{"any-chain-2m-maxstack64m", func() []byte { return append(bytes.Repeat([]byte{132}, 2<<20), 145, 1) }},
-		{"any-chain-24m", func() []byte { return append(bytes.Repeat([]byte{132}, 24<<20), 145, 1) }},
 		// zero-size elements: the loop count comes from the descriptor, no input is consumed
 		{"array-of-zero-size-2^32", lit(cat([]byte{130, 0, 11, 158}, be32(0xffffffff), []byte{158}, be32(0), []byte{151}, []byte{0}))},
 		{"array-of-zero-size-nested", lit(cat([]byte{130, 0, 16, 158}, be32(0xffffffff), []byte{158}, be32(0xffffffff), []byte{158}, be32(0), []byte{151}, []byte{0}))},
@@ -241,6 +240,9 @@ const bombsPerCase = 2
 
 // oracles --------------------------------------------------------------------------------
 
+// the input whose decode calls are being timed by the CPU watchdog
+var pendingCall *callInfo
+
 type decRes struct {
 	val      any
 	tail     []byte
@@ -264,8 +266,8 @@ func decodeOnce(data []byte, slack byte, o optset, measure bool) (r decRes) {
 	if measure {
 		a0 = totalAlloc()
 	}
-	if ci := curCall.Load(); ci != nil {
-		ci.cpu0.Store(int64(cpuTime())) // the CPU budget is per call
+	if pendingCall != nil {
+		beginCall(pendingCall) // the CPU budget is per call, and only the call under test is timed
 	}
 	func() {
 		defer func() {
@@ -275,6 +277,7 @@ func decodeOnce(data []byte, slack byte, o optset, measure bool) (r decRes) {
 		}()
 		r.val, r.tail, r.err = edf.Decode(in, o.dec)
 	}()
+	endCall()
 	if measure {
 		r.allocd = totalAlloc() - a0
 	}
@@ -302,8 +305,8 @@ func isTrivialClass(class string, n int) bool {
 func checkDecode(caseIdx int, cs caseSpec, idx int, data []byte, o optset, a *agg) {
 	progress(caseIdx, idx, data)
 	ci := &callInfo{caseIdx: caseIdx, caseID: cs.ID, idx: idx, data: data, marker: "main.decodeOnce"}
-	beginCall(ci)
-	defer endCall()
+	pendingCall = ci
+	defer func() { pendingCall = nil }()
 
 	r := decodeOnce(data, 0xAA, o, true)
 	events := int64(1)
@@ -379,7 +382,7 @@ func checkDecode(caseIdx int, cs caseSpec, idx int, data []byte, o optset, a *ag
 		b := lib.TakeBuffer()
 		var eerr error
 		var epanic any
-		ci.cpu0.Store(int64(cpuTime()))
+		beginCall(ci)
 		func() {
 			defer func() {
 				if p := recover(); p != nil {
@@ -388,6 +391,7 @@ func checkDecode(caseIdx int, cs caseSpec, idx int, data []byte, o optset, a *ag
 			}()
 			eerr = edf.Encode(r.val, b, o.enc)
 		}()
+		endCall()
 		switch {
 		case epanic != nil:
 			mk("roundtrip/encode-panic", fmt.Sprintf("decoded value %T makes edf.Encode panic: %v", r.val, epanic), nil)
@@ -423,7 +427,8 @@ func checkDecode(caseIdx int, cs caseSpec, idx int, data []byte, o optset, a *ag
 	a.add(class, nontrivial, events)
 }
 
-// hasZeroSizeElem: the type contains a slice or array whose elements have size zero (their encoding is empty)
+// hasZeroSizeElem: the type contains a slice or array whose elements have size zero, or a map whose keys and
+// values both have size zero (their encoding is empty, the decoder's count check rejects the valid encoding)
 func hasZeroSizeElem(t reflect.Type, depth int) bool {
 	if t == nil || depth > 12 {
 		return false
@@ -435,6 +440,9 @@ func hasZeroSizeElem(t reflect.Type, depth int) bool {
 		}
 		return hasZeroSizeElem(t.Elem(), depth+1)
 	case reflect.Map:
+		if t.Key().Size() == 0 && t.Elem().Size() == 0 {
+			return true
+		}
 		return hasZeroSizeElem(t.Key(), depth+1) || hasZeroSizeElem(t.Elem(), depth+1)
 	case reflect.Struct:
 		for i := 0; i < t.NumField(); i++ {
